@@ -263,16 +263,30 @@ def buffer_validators(rep, prog, rule, ptr64=True):
         f = fs[0]
         rep.touch(f)
         calls = [c.name for c in f.calls()]
-        al = [c for c in f.calls() if "align_buffer_to" in c.name]
         ctor = [c for c in f.calls() if c.name.endswith("::new") or "from_pixels_slice" in c.name]
         key = "%s|delegates" % name
-        if al and ctor:
-            rep.ok(rule, key, f.loc, "aligns with %s, then validates with %s" % (
-                al[0].name.rsplit("::", 1)[-1], ctor[0].name.rsplit("::", 1)[-1]))
+        ctx = Ctx(prog, f)
+        # on the Ok path the unaligned head of align_to must have been found empty (directly or
+        # inside a helper that returns Ok / Some only then), and the typed constructor decides
+        head_ok = False
+        for okb in list(ok_blocks(f)) + [c_.bb for c_ in ctor]:
+            for c, v in ctx.facts(okb):
+                s_ = fmt(unexact(c))
+                if "is_empty" in s_ and "align_to" in s_ and \
+                        ((v is True and not s_.startswith("Not")) or (v is False and c[0] == "un")):
+                    head_ok = True
+        if head_ok and ctor:
+            rep.ok(rule, key, f.loc, "Ok only when the unaligned head is empty, then validates with %s"
+                   % ctor[0].name.rsplit("::", 1)[-1])
+        elif ctor and any("align" in n for n in calls):
+            rep.unk(rule, key, f.loc, "%s aligns through %s; the empty-head test was not followed" % (
+                name, [n.rsplit("::", 1)[-1] for n in calls if "align" in n][:2]))
         else:
-            rep.bad(rule, key, f.loc, "%s no longer goes through align_buffer_to* and the typed "
+            rep.bad(rule, key, f.loc, "%s no longer aligns the byte buffer and delegates to the typed "
                     "validator (calls: %s)" % (name, calls[:8]))
     for name in ("images::typed_image::align_buffer_to", "images::typed_image::align_buffer_to_mut"):
+        if not [g for g in prog.fns.values() if g.name == name]:
+            continue
         f = prog.fn_by_name(name)
         rep.touch(f)
         ctx = Ctx(prog, f)
@@ -545,15 +559,19 @@ def constructors_validate(rep, prog, rule):
             key = "%s|%s" % (f.name, st[2][2].rsplit("::", 1)[-1])
             # find a dominating check_crop_box call whose `?`-continue edge dominates b
             found = None
+            found_args = None
             for c in f.calls():
-                if c.name.endswith("check_crop_box") and dom.dominates(c.bb, b):
-                    found = c
+                if not dom.dominates(c.bb, b):
+                    continue
+                eff = _check_crop_box_args(prog, f, sym, c)
+                if eff is not None:
+                    found, found_args = c, eff
             if found is None:
                 rep.bad(rule, key, st[3], "%s builds %s without a dominating check_crop_box call"
                         % (f.name, st[2][2].rsplit("::", 1)[-1]))
                 continue
             # the aggregate must be on the success side: not reachable through an Err edge only
-            args = [sym.operand(a) for a in found.args]
+            args = found_args
             want = [ops.get("left"), ops.get("top"), ops.get("width"), ops.get("height")]
             if args[2:6] == want:
                 img_ok = (strip_widen(args[0])[0] == "call" and strip_widen(args[0])[1] == "width"
@@ -575,6 +593,59 @@ def constructors_validate(rep, prog, rule):
                             ", ".join(fmt(x) if x else "?" for x in want),
                             ", ".join(fmt(a) for a in args[2:6])))
     rep.floor(rule, "cropped-view aggregates", n, 6)
+
+
+def _check_crop_box_args(prog, f, sym, c, depth=0):
+    """the arguments check_crop_box receives when call c is made: c calls it directly, or calls
+    a crate-local wrapper whose result is the result of (a wrapper of) check_crop_box; the
+    wrapper's parameters are replaced by c's arguments. None otherwise"""
+    args = [sym.operand(a, (c.bb, "term")) for a in c.args]
+    if c.name.endswith("check_crop_box"):
+        return args
+    if depth > 2:
+        return None
+    tg = prog.call_targets(c)
+    if len(tg) != 1 or tg[0].kind == "closure" or "Result<" not in (tg[0].d.get("output") or ""):
+        return None
+    g = tg[0]
+    if len(args) != g.arg_count:
+        return None
+    gs = Sym(g)
+    inner = None
+    for c2 in g.calls():
+        eff = _check_crop_box_args(prog, g, gs, c2, depth + 1)
+        if eff is not None:
+            # the wrapper returns exactly what the check returns
+            if c2.dest and c2.dest[0] == 0 or any(
+                    st[0] == "a" and st[1] == [0] and st[2][0] == "use" and st[2][1][0] in ("c", "m")
+                    and st[2][1][1] == [c2.dest[0]] for blk in g.blocks for st in blk["s"]):
+                inner = eff if inner is None else None
+    if inner is None:
+        return None
+    mapping = {("param", i + 1, g.local_name(i + 1)): a for i, a in enumerate(args)}
+    return [project(inline_pure(prog, subst(e, mapping))) for e in inner]
+
+
+def project(e):
+    """[a, b, c][1] -> b and (a, b).0 -> a (values that travel as an array / tuple)"""
+    if not isinstance(e, tuple) or not e:
+        return e
+    e = tuple(project(x) if isinstance(x, tuple) else x for x in e)
+    if e[0] == "index" and len(e) >= 3 and isinstance(e[1], tuple) and e[1] and e[1][0] == "agg" \
+            and e[1][1] in ("array", "tuple"):
+        k = e[2]
+        while isinstance(k, tuple) and k and k[0] == "cast":
+            k = k[2]
+        if isinstance(k, tuple) and k and k[0] == "const" and isinstance(k[1], int) and k[1] < len(e[1][4]):
+            return e[1][4][k[1]]
+    if e[0] == "field" and isinstance(e[1], tuple) and e[1] and e[1][0] == "agg" and e[1][1] == "tuple":
+        try:
+            k = int(e[2])
+        except (TypeError, ValueError):
+            return e
+        if k < len(e[1][4]):
+            return e[1][4][k]
+    return e
 
 
 def _on_ok_side(f, sym, dom, call, b):
